@@ -426,18 +426,45 @@ func (e *Env) RNoGoroutines() {
 	e.Run.Analysed("files scanned for concurrency constructs", files)
 }
 
-// RReadOnlyResolvers: methods of the map-typed resolvers never update the receiver map.
+// RReadOnlyResolvers: package-name resolvers may be shared between goroutines and are documented
+// as read-only: ResolvePackage of every in-scope implementation of resolver.RestorerResolver never
+// writes its receiver (map update, field or field-map store).
+// resolvers that are plain lookup tables: any receiver write is a violation. The go/packages and
+// go/build based resolvers configure their embedded Config/Context on every call (idempotent field
+// writes; they are not among the read-only resolvers the property lets goroutines share): for
+// them only stores into receiver-held maps (memo tables) are reported.
+var readOnlyPkgs = map[string]bool{load.PkgGuess: true, load.PkgSimple: true, load.PkgGotypes: true}
+
+func writesThroughIndex(stack []ast.Node) bool {
+	for i := len(stack) - 1; i >= 0; i-- {
+		switch p := stack[i].(type) {
+		case *ast.IndexExpr:
+			return true
+		case *ast.AssignStmt, *ast.IncDecStmt:
+			_ = p
+			return false
+		case *ast.CallExpr:
+			if id, ok := p.Fun.(*ast.Ident); ok && id.Name == "delete" {
+				return true
+			}
+			return false
+		}
+	}
+	return false
+}
+
 func (e *Env) RReadOnlyResolvers() {
 	n := 0
-	for _, path := range []string{load.PkgGuess, load.PkgSimple} {
-		pkg := e.Prog.Pkg(path)
+	resPkg := e.Prog.Pkg(load.PkgResolver).Types
+	iface, _ := resPkg.Scope().Lookup("RestorerResolver").Type().Underlying().(*types.Interface)
+	for _, pkg := range e.Prog.InScopePkgs() {
 		info := pkg.TypesInfo
 		for _, fd := range load.AllFuncDecls(pkg) {
-			if fd.Recv == nil || fd.Body == nil || len(fd.Recv.List[0].Names) != 1 {
+			if fd.Recv == nil || fd.Body == nil || len(fd.Recv.List[0].Names) != 1 || fd.Name.Name != "ResolvePackage" {
 				continue
 			}
 			recv := info.Defs[fd.Recv.List[0].Names[0]]
-			if _, isMap := recv.Type().Underlying().(*types.Map); !isMap {
+			if iface != nil && !types.Implements(recv.Type(), iface) {
 				continue
 			}
 			n++
@@ -450,13 +477,16 @@ func (e *Env) RReadOnlyResolvers() {
 				}
 				stack = append(stack, nd)
 				if id, ok := nd.(*ast.Ident); ok && info.Uses[id] == recv && isWriteContext(stack) {
-					bad = id.Pos()
+					if readOnlyPkgs[pkg.PkgPath] || writesThroughIndex(stack) {
+						bad = id.Pos()
+					}
 				}
 				return true
 			})
-			e.Run.Check("R-LOCK", fmt.Sprintf("%s.%s does not update its receiver map", strings.TrimPrefix(path, load.ModPath+"/"), load.FuncName(fd)), e.Prog.Pos(fd.Pos()), bad == token.NoPos,
-				"read-only package-name resolvers may be shared between goroutines; a map update in "+e.Prog.Pos(bad)+" races")
+			e.Run.Check("R-LOCK", fmt.Sprintf("%s.%s does not write its receiver", strings.TrimPrefix(pkg.PkgPath, load.ModPath+"/"), load.FuncName(fd)), e.Prog.Pos(fd.Pos()), bad == token.NoPos,
+				"package-name resolvers are shared between goroutines (and kept across calls) as read-only values; a store to receiver state at "+e.Prog.Pos(bad)+" races and lets one call influence later ones")
 		}
 	}
-	e.Run.Analysed("map-typed resolver methods", n)
+	e.Run.Analysed("RestorerResolver implementations", n)
+	e.Run.Floor("R-LOCK", "RestorerResolver implementations", n, 3)
 }
